@@ -2,7 +2,7 @@
 
 # tier A: sidecar contract modules whose contracts carry `props=[...]`; tier B: bounded module
 PROPS = {
-    "C01": dict(tier_a=[], tier_b="bounded.c01"),
+    "C01": dict(tier_a=["contracts.prefix_ops"], tier_b="bounded.c01"),
     "C02": dict(tier_a=["contracts.null_ordering"], tier_b="bounded.c02"),
     "C04": dict(tier_a=["contracts.generator_fmt"], regtrans=True, tier_b="bounded.c04"),
     "C05": dict(tier_a=["contracts.parser_cursor", "contracts.errors_funnel", "contracts.tokenizer"], projection=True, tier_b="bounded.c05"),
